@@ -35,7 +35,7 @@ def describe(tier):
 
 
 def blocks(tier):
-    bl = K.pair_blocks(tier) + K.many_blocks(tier) + K.run_blocks(tier) + K.block_blocks(tier) + [("manylong", {})]
+    bl = K.pair_blocks(tier) + K.many_blocks(tier) + K.run_blocks(tier) + K.block_blocks(tier) + [("manylong", {}), ("huge", {})]
     return [(f, dict(p, tier=tier)) for f, p in bl]
 
 
@@ -82,6 +82,12 @@ def run_block(family, p, acc):
                 check_pair(A, B, acc, "runs")
                 check_pair(B, A, acc, "runs")
                 acc.case(("runs", tuple(A), tuple(B)), nontrivial=True, outcome=("runs", K.overlapping(A, B)), sample=lambda: {"universe": "runs", "A": A, "B": B})
+        return
+    if family == "huge":
+        for da, db in K.huge_pairs(tier):
+            check_pair(da, db, acc, "blocked")
+            check_pair(db, da, acc, "blocked")
+            acc.case(("huge", da["pat"], da["n"], repr(db)), nontrivial=True, outcome=("huge", da["pat"]), sample=lambda: {"universe": "blocked", "A": da, "B": db})
         return
     if family == "manylong":
         for lst in K.many_long_lists(tier):
